@@ -17,7 +17,56 @@ def okRes : Res := ⟨sOK ++ ['\n'], 0, none, false⟩
 def failRes : Res := ⟨sFail ++ ['\n'], 1, none, false⟩
 def tracebackRes (e : Err) : Res := ⟨[], 1, some e, false⟩
 
+/-- closed form of the current (guarded) `test`: every failure is the verdict `Fail` -/
 def testClosed (lib : Lib σ) (content : Except Err Text) : Res :=
+  match content with
+  | .error _ => failRes
+  | .ok t =>
+    match lib.parse t with
+    | .error _ => failRes
+    | .ok s =>
+      if lib.containsError s then failRes
+      else match lib.rebuild s with
+        | .error _ => failRes
+        | .ok r => if r = t then okRes else failRes
+
+theorem run_test_eq (lib : Lib σ) (content : Except Err Text) (chan : Channel) (np v : Text) :
+    run lib content chan np v testProg {} = testClosed lib content := by
+  unfold testProg testClosed failExit okRes failRes
+  cases content with
+  | error e => simp [run, evalRhs, argText, evalArg, asText, bind, Except.bind]
+  | ok t =>
+    cases hp : lib.parse t with
+    | error e => simp [run, evalRhs, argText, evalArg, asText, hp, bind, Except.bind]
+    | ok s =>
+      cases he : lib.containsError s with
+      | true =>
+        simp [run, evalRhs, evalCond, argText, argSrc, evalArg, asText, asSrc, hp, he, bind,
+          Except.bind, pure, Except.pure]
+      | false =>
+        cases hr : lib.rebuild s with
+        | error e =>
+          simp [run, evalRhs, evalCond, argText, argSrc, evalArg, asText, asSrc, hp, he, hr,
+            bind, Except.bind, pure, Except.pure]
+        | ok r =>
+          by_cases h : r = t
+          · subst h
+            simp [run, evalRhs, evalCond, argText, argSrc, evalArg, asText, asSrc, hp, he, hr,
+              bind, Except.bind, pure, Except.pure]
+          · have hb : (r == t) = false := by simpa using h
+            simp [run, evalRhs, evalCond, argText, argSrc, evalArg, asText, asSrc, hp, he, hr,
+              hb, h, bind, Except.bind, pure, Except.pure]
+
+theorem cli_test_eq (lib : Lib σ) (inv : Inv) : cli lib .test inv = testClosed lib inv.content :=
+  run_test_eq lib _ _ _ _
+
+theorem cliWith_test_eq (fo : FileOpt) (lib : Lib σ) (inv : Inv) :
+    cliWith fo lib .test inv = testClosed lib (contentWith fo inv.chan inv.raw) :=
+  run_test_eq lib _ _ _ _
+
+/-! ### `test` before /repo 1526c34 (exceptions escape) -/
+
+def oldTestClosed (lib : Lib σ) (content : Except Err Text) : Res :=
   match content with
   | .error e => tracebackRes e
   | .ok t =>
@@ -29,9 +78,10 @@ def testClosed (lib : Lib σ) (content : Except Err Text) : Res :=
         | .error e => tracebackRes e
         | .ok r => if t = r then okRes else failRes
 
-theorem cli_test_eq (lib : Lib σ) (inv : Inv) : cli lib .test inv = testClosed lib inv.content := by
-  unfold cli runProg progOf testProg testClosed okRes failRes tracebackRes
-  cases hc : inv.content with
+theorem run_oldTest_eq (lib : Lib σ) (content : Except Err Text) (chan : Channel) (np v : Text) :
+    run lib content chan np v oldTestProg {} = oldTestClosed lib content := by
+  unfold oldTestProg oldTestClosed okRes failRes tracebackRes
+  cases content with
   | error e => simp [run, evalRhs, crash]
   | ok t =>
     cases hp : lib.parse t with
@@ -54,6 +104,9 @@ theorem cli_test_eq (lib : Lib σ) (inv : Inv) : cli lib .test inv = testClosed 
           · have hb : (t == r) = false := by simpa using h
             simp [run, evalRhs, evalCond, crash, argText, argSrc, evalArg, asText, asSrc, hp, he, hr,
               hb, h, bind, Except.bind, pure, Except.pure]
+
+theorem oldCli_test_eq (lib : Lib σ) (inv : Inv) : oldCli lib .test inv = oldTestClosed lib inv.content :=
+  run_oldTest_eq lib _ _ _ _
 
 /-! ## Text lemmas -/
 
@@ -115,6 +168,12 @@ theorem contentWith_of_noCR (fo : FileOpt) (c : Channel) (t : Text) (h : hasCR t
     · simp [Except.map, translateNewlines_of_noCR t h]
     · rfl
 
+/-- the current wiring delivers the bytes' text untouched on both channels -/
+theorem contentWith_fileOpt (c : Channel) (raw : Except Err Text) : contentWith fileOpt c raw = raw := by
+  cases c <;> rfl
+
+theorem content_eq_raw (inv : Inv) : inv.content = inv.raw := contentWith_fileOpt _ _
+
 theorem contentWith_error (fo : FileOpt) (c : Channel) (e : Err) :
     contentWith fo c (.error e : Except Err Text) = .error e := by
   cases c with
@@ -134,6 +193,8 @@ def Prog.chanFree : Prog → Bool
   | .write _ k => k.chanFree
   | .helpStderr k => k.chanFree
   | .ite c t e => c.chanFree && t.chanFree && e.chanFree
+  | .tryBind _ k h => k.chanFree && h.chanFree
+  | .tryIte c t e h => c.chanFree && t.chanFree && e.chanFree && h.chanFree
   | .ret _ => true
   | .done => true
 
@@ -173,6 +234,22 @@ theorem run_chanFree (lib : Lib σ) (content : Except Err Text) (c1 c2 : Channel
     · exact iht ht _
     · exact ihe he _
     · rfl
+  | tryBind r k hh ihk ihh =>
+    simp only [Prog.chanFree, Bool.and_eq_true] at h
+    simp only [run]
+    split
+    · exact ihk h.1 _
+    · exact ihh h.2 _
+  | tryIte c t e hh iht ihe ihh =>
+    simp only [Prog.chanFree, Bool.and_eq_true] at h
+    obtain ⟨⟨⟨hc, ht⟩, he⟩, hh'⟩ := h
+    have hcond : evalCond lib c1 st c = evalCond lib c2 st c := by
+      cases c <;> first | rfl | simp [Cond.chanFree] at hc
+    simp only [run, hcond]
+    split
+    · exact iht ht _
+    · exact ihe he _
+    · exact ihh hh' _
   | ret n => rfl
   | done => rfl
 
@@ -203,6 +280,17 @@ theorem run_raised_exit (lib : Lib σ) (content : Except Err Text) (c : Channel)
     · rename_i heq; rw [heq] at h; exact iht _ h
     · rename_i heq; rw [heq] at h; exact ihe _ h
     · rfl
+  | tryBind r k hh ihk ihh =>
+    simp only [run] at h ⊢
+    split
+    · rename_i heq; rw [heq] at h; exact ihk _ h
+    · rename_i heq; rw [heq] at h; exact ihh _ h
+  | tryIte c t e hh iht ihe ihh =>
+    simp only [run] at h ⊢
+    split
+    · rename_i heq; rw [heq] at h; exact iht _ h
+    · rename_i heq; rw [heq] at h; exact ihe _ h
+    · rename_i heq; rw [heq] at h; exact ihh _ h
   | ret n => simp [run] at h
   | done => simp [run] at h
 
@@ -222,6 +310,8 @@ def Prog.emitsLast : Prog → Bool
   | .write _ k => k.cannotRaise
   | .helpStderr k => k.emitsLast
   | .ite _ t e => t.emitsLast && e.emitsLast
+  | .tryBind _ k h => k.emitsLast && h.emitsLast
+  | .tryIte _ t e h => t.emitsLast && e.emitsLast && h.emitsLast
   | .ret _ => true
   | .done => true
 
@@ -246,6 +336,8 @@ theorem run_cannotRaise (lib : Lib σ) (content : Except Err Text) (c : Channel)
       exact ih h _
   | helpStderr k ih => simp only [Prog.cannotRaise] at h; simp only [run]; exact ih h _
   | ite c t e _ _ => simp [Prog.cannotRaise] at h
+  | tryBind r k hh _ _ => simp [Prog.cannotRaise] at h
+  | tryIte c t e hh _ _ _ => simp [Prog.cannotRaise] at h
   | ret n => rfl
   | done => rfl
 
@@ -286,6 +378,19 @@ theorem run_emitsLast_silent (lib : Lib σ) (content : Except Err Text) (c : Cha
     · rename_i heq; rw [heq] at hr; exact iht h.1 _ hr
     · rename_i heq; rw [heq] at hr; exact ihe h.2 _ hr
     · rfl
+  | tryBind r k hh ihk ihh =>
+    simp only [Prog.emitsLast, Bool.and_eq_true] at h
+    simp only [run] at hr ⊢
+    split
+    · rename_i heq; rw [heq] at hr; exact ihk h.1 _ hr
+    · rename_i heq; rw [heq] at hr; exact ihh h.2 _ hr
+  | tryIte cnd t e hh iht ihe ihh =>
+    simp only [Prog.emitsLast, Bool.and_eq_true] at h
+    simp only [run] at hr ⊢
+    split
+    · rename_i heq; rw [heq] at hr; exact iht h.1.1 _ hr
+    · rename_i heq; rw [heq] at hr; exact ihe h.1.2 _ hr
+    · rename_i heq; rw [heq] at hr; exact ihh h.2 _ hr
   | ret n => simp [run] at hr
   | done => simp [run] at hr
 
@@ -319,6 +424,17 @@ theorem run_stdout_prefix (lib : Lib σ) (content : Except Err Text) (c : Channe
     · exact iht _
     · exact ihe _
     · exact ⟨[], by simp [crash]⟩
+  | tryBind r k hh ihk ihh =>
+    simp only [run]
+    split
+    · exact ihk _
+    · exact ihh _
+  | tryIte cnd t e hh iht ihe ihh =>
+    simp only [run]
+    split
+    · exact iht _
+    · exact ihe _
+    · exact ihh _
   | ret n => exact ⟨[], by simp [run]⟩
   | done => exact ⟨[], by simp [run]⟩
 
